@@ -300,10 +300,35 @@ def check_relocation(ctx, unit, classes, rule="O5.relocate-range"):
                              "expected one relocation loop and one destruction loop over the old storage, found %d and %d%s" % (
                                  len(moves), len(dtors), " (and a relocation outside any loop)" if stray else ""), f)
                     continue
-                mb, db = moves[0].bound_canon(), dtors[0].bound_canon()
-                ms, ds = moves[0].start_canon(), dtors[0].start_canon()
+                inits_ = RA.local_inits(f)
+
+                def as_index(e):
+                    """index of a pointer into the old storage (`_elements + k`, or a local initialised so): canon of k"""
+                    x = std_unwrap(e)
+                    hops = 0
+                    while x.kind == "DeclRefExpr" and x.get("local") and x.d["d"] in inits_ and not RA._reassigned(f, x.d["d"]) and hops < 6:
+                        x, hops = std_unwrap(inits_[x.d["d"]]), hops + 1
+                    if x.kind == "BinaryOperator" and x.op == "+" and (x.get("t") or "").rstrip().endswith("*"):
+                        for a_, b_ in ((x.children[0], x.children[1]), (x.children[1], x.children[0])):
+                            if old(a_) is True and (std_unwrap(a_).get("t") or a_.get("t") or "").rstrip().endswith("*"):
+                                return canon(std_unwrap(b_))
+                    if old(x) is True and (x.get("t") or "").rstrip().endswith("*") and x.kind in ("MemberExpr", "CXXMemberCallExpr"):
+                        return "0"
+                    return None
+
+                def rng(lp):
+                    s_, b_, op_ = lp.start_canon(), lp.bound_canon(), lp.op
+                    if lp.start is not None and lp.bound is not None:
+                        si, bi = as_index(lp.start), as_index(lp.bound)
+                        if si is not None and bi is not None:
+                            st_ = lp.step_of()
+                            # pointer iteration `for(it = base + a; it != base + b; ++it)`: the index range [a, b)
+                            return si, bi, ("<" if op_ in ("<", "!=") and st_ is not None and st_[0] == "++" else op_)
+                    return s_, b_, op_
+                ms, mb, mop = rng(moves[0])
+                ds, db, dop = rng(dtors[0])
                 want = "this.%s" % sizef
-                ok = mb == db == want and ms == ds == "0" and moves[0].op == dtors[0].op == "<"
+                ok = mb == db == want and ms == ds == "0" and mop == dop == "<"
                 cover = _grow_covers_request(f, move_nodes[0], old, sc)
                 ctx.inst(rule, "%s::%s" % (cls, f.name), ok and cover is None, f.loc,
                          ("relocates [%s, %s), destroys [%s, %s), live range is [0, %s) (instantiation %s)" % (ms, mb, ds, db, want, rec["qn"]))
@@ -618,12 +643,28 @@ def check_local_allocs(ctx, unit, fns, rule="O1.alloc-escapes"):
                                         xs.add(d["d"])
                                         grew = True
 
+            # the block may travel inside a small aggregate that a folded helper returns (`return {new_buffer, new_length};`
+            # ... `_buffer = grown.buffer;`): the field of that record type which was initialised with the block carries it
+            agg_fields = set()
+            for x in f.all_nodes():
+                if x.kind == "InitListExpr" and x.children:
+                    rq = (x.get("t") or "").replace("const ", "").strip()
+                    rec_ = [r_ for r_ in unit.records if r_["qn"] == rq or r_.get("t") == rq]
+                    if not rec_:
+                        continue
+                    for k_, ch_ in enumerate(x.children):
+                        c_ = std_unwrap(ch_)
+                        if c_.kind == "DeclRefExpr" and c_.d.get("d") in xs and k_ < len(rec_[0]["fields"]):
+                            agg_fields.add((rec_[0]["uq"], rec_[0]["fields"][k_]["n"]))
+
             def is_x(m):
                 m = std_unwrap(m)
                 if m.kind == "CXXNewExpr" and m.get("placement") and m.get("pargs"):
                     return is_x(f.node(m.get("pargs")[0]))
                 if m.id == call.id or m.strip().id == call.id:
                     return True         # (a parameter of a virtually inlined helper *is* the allocation expression)
+                if agg_fields and m.kind == "MemberExpr" and (m.get("mc"), m.get("m")) in agg_fields:
+                    return True
                 return m.kind == "DeclRefExpr" and m.d["d"] in xs
 
             def transfer(m, s, did=did, bind=bind):
@@ -1651,9 +1692,22 @@ class StorageClass:
                 seen.add(d)
                 if d in bind:
                     return old_storage(f.node(bind[d]), depth + 1, seen)
-                if d in inits and not RA._reassigned(f, d):
+                if d in inits and (not RA._reassigned(f, d) or only_stepped(d)):
                     return old_storage(inits[d], depth + 1, seen)
             return None
+
+        def only_stepped(d):
+            """a pointer that is only ever advanced (++, --, += k, -= k) stays in the storage it was initialised to point into"""
+            for y in f.all_nodes():
+                if y.kind == "BinaryOperator" and y.op == "=":
+                    l = y.children[0].strip()
+                    if l.kind == "DeclRefExpr" and l.d["d"] == d:
+                        return False
+                if y.kind == "UnaryOperator" and y.op == "&":
+                    l = y.children[0].strip()
+                    if l.kind == "DeclRefExpr" and l.d["d"] == d:
+                        return False
+            return True
         return old_storage
 
 
@@ -2114,3 +2168,94 @@ def check_detach_before_destroy(ctx, unit, classes, rule="O9.detach-before-destr
                          "%d release(s), each through a local taken from the field" % len(rel), f)
             if not n_rel:
                 raise AnalysisBroken("anchor vanished: no member of %s besides the destructor releases the object" % cls)
+
+
+# ---- swap relocates into storage that holds nothing ------------------------------------------------------------------
+
+def check_swap_targets(ctx, unit, classes, rule="O.swap-into-empty-storage"):
+    """small_vector's swap moves inline elements to the other operand.  The destination of such a relocation is the other
+    operand's INLINE array -- empty whenever that operand keeps its elements on the heap.  `_get_container()` of an operand
+    that is known, on that path, not to be small is its heap buffer, which holds its live elements: relocating there
+    constructs over them.  The small/large knowledge is derived from the branch facts by enumerating the truth values of the
+    `_is_small()` calls that are consistent with them."""
+    import itertools
+    ctx.rule(rule, "in swap() no relocation or placement-new targets the heap buffer of an operand (`_elements`, or `_get_container()` of an "
+             "operand known not to be small on that path): that buffer holds the operand's live elements", len(classes))
+    for cls in classes:
+        sws = [f for f in unit.functions if f.name == "swap" and sum(1 for p in f.params() if (p.get("rt") or "") == cls) == 2]
+        if not sws:
+            raise AnalysisBroken("anchor vanished: swap of %s" % cls)
+        for f in sws[:1]:
+            def small_atom(x):
+                x = std_unwrap(x)
+                if x.is_call() and x.callee and x.callee["n"] == "_is_small" and x.child("obj") is not None:
+                    return canon(std_unwrap(x.child("obj")))
+                return None
+
+            def known_small(obj_canon, at):
+                """True / False / None from the facts at element `at`"""
+                facts = flow.facts_at(f, at.id)
+                atoms = set()
+                for c, t in facts:
+                    for y in c.walk():
+                        a = small_atom(y)
+                        if a is not None:
+                            atoms.add(a)
+                atoms.add(obj_canon)
+                atoms = sorted(atoms)
+                if len(atoms) > 6:
+                    return None
+                seen = set()
+                for vals in itertools.product((0, 1), repeat=len(atoms)):
+                    env = dict(zip(atoms, vals))
+                    ok = True
+                    for c, t in facts:
+                        v = flow.sem_eval(c, lambda leaf: env.get(small_atom(leaf)) if small_atom(leaf) is not None else None)
+                        if v is not None and bool(v) != bool(t):
+                            ok = False
+                            break
+                    if ok:
+                        seen.add(env[obj_canon])
+                if seen == {1}:
+                    return True
+                if seen == {0}:
+                    return False
+                return None
+            inits = RA.local_inits(f)
+            bm_ = f.bind_map()
+            bad, n_t = [], 0
+            targets = []
+            for n in f.events():
+                if n.is_call() and n.callee and n.callee["n"] == "_relocate" and len(n.args) >= 3:
+                    targets.append((n, n.args[-1]))
+                elif n.kind == "CXXNewExpr" and n.get("placement") and n.get("pargs"):
+                    targets.append((n, f.node(n.get("pargs")[0])))
+            for n, d in targets:
+                n_t += 1
+                roots = []
+                work = [d]
+                hops = 0
+                while work and hops < 40:
+                    x = work.pop()
+                    hops += 1
+                    for y in x.walk():
+                        if y.kind == "DeclRefExpr" and y.get("local") and y.d["d"] in inits and not RA._reassigned(f, y.d["d"]):
+                            work.append(inits[y.d["d"]])
+                        elif y.kind == "DeclRefExpr" and y.d.get("d") in bm_:
+                            work.append(f.node(bm_[y.d["d"]]))     # parameter of a folded helper (_relocate's destination)
+                        if y.is_call() and y.callee and y.callee["n"] in ("_get_container", "_inline_array") and y.child("obj") is not None:
+                            roots.append((y.callee["n"], canon(std_unwrap(y.child("obj"))), y))
+                        if y.kind == "MemberExpr" and y.get("m") == "_elements":
+                            roots.append(("_elements", canon(std_unwrap(y.children[0])) if y.children else "?", y))
+                for kind, obj, y in roots:
+                    if kind == "_elements":
+                        bad.append("%s: the destination at %s is the heap buffer of %s" % (f.name, n.loc, obj.split("#")[0]))
+                    elif kind == "_get_container":
+                        ks = known_small(obj, y)
+                        if ks is not True:
+                            bad.append("%s: the destination at %s is _get_container() of %s, which is %s on that path: its heap buffer holds its "
+                                       "live elements" % (f.name, n.loc, obj.split("#")[0].replace("p:", ""), "not small" if ks is False else "not known to be small"))
+            if n_t < 3:
+                raise AnalysisBroken("anchor vanished: relocations / placement-news in swap of %s (found %d)" % (cls, n_t))
+            ctx.inst(rule, "%s: swap" % cls, not bad, f.loc, "; ".join(sorted(set(bad))[:2]) if bad else
+                     "%d relocation / construction targets, all inline storage or the inline array of a small operand" % n_t, f)
